@@ -1135,6 +1135,23 @@ class Explorer:
                 pass
         return out
 
+    def _generic_inputs_variants(self):
+        """up to three generic models of the path condition that differ in sign / magnitude of the real inputs (a failure that
+        only shows for negative or for large values is then still likely to be witnessed by one of them)"""
+        out = []
+        g = self._generic_inputs()
+        if g is not None:
+            out.append(g)
+        reals = [t for t in self.inputs.values() if z3.is_real(t)]
+        if reals and len(reals) <= 40:
+            for extra in ([t < -z3.RealVal("7/2") for t in reals], [t > z3.RealVal("7/2") for t in reals]):
+                try:
+                    if self._check(z3.And(*(extra + [z3.Not(z3.IsInt(t * 2)) for t in reals]))) == "sat":
+                        out.append(self._model_inputs(self._last_model))
+                except Exception:
+                    pass
+        return out
+
     def _generic_inputs(self):
         """a second model of the path condition in which the real inputs are non-integers, pairwise different and not small: the
         failure was observed on the whole path (e.g. the code raised), so any model is a witness; a generic one is the most
@@ -1338,12 +1355,13 @@ class Explorer:
             if len(self.unsupported) < 5:
                 self.unsupported.append(msg)
             try:
-                inputs = self._generic_inputs() or self._current_inputs()
+                variants = self._generic_inputs_variants() or [self._current_inputs()]
             except BaseException:
-                inputs = None
-            if inputs is not None:
+                variants = []
+            variants = [v for v in variants if v is not None]
+            for inputs in variants:
                 self._violate(msg, "unsupported: " + str(e)[:60] + where, inputs, None, kind="unsupported")
-            else:
+            if not variants:
                 self.unsupported_unwitnessed += 1
         except Frontier:
             self._armed = False
